@@ -73,7 +73,9 @@ func ExprSlots(prog []*Node) []Slot {
 				expr(func() *Node { return n.Args[i] }, func(x *Node) { n.Args[i] = x }, p+".arg", d, inLoop, true)
 			}
 		case Attr:
-			// attribute parts are restricted positions
+			// attribute parts are restricted positions: descend only (the keys of an indexed part are ordinary slots)
+			expr(func() *Node { return n.X }, func(x *Node) { n.X = x }, p+".attr-object", d, inLoop, false)
+			expr(func() *Node { return n.Y }, func(x *Node) { n.Y = x }, p+".attr-part", d, inLoop, false)
 		case Assign:
 			for i := range n.Args {
 				i := i
